@@ -12,7 +12,7 @@ PKG = "strengths"
 
 
 class Mod:
-    def __init__(self, name, path):
+    def __init__(self, name, path, sigs=None):
         self.name, self.path = name, path
         src = open(path, encoding="utf-8", newline="").read()
         self.src = src
@@ -22,6 +22,9 @@ class Mod:
         from . import pynorm, inventory, pynames
         names_log = []
         pynames.align(self.tree, name, names_log)      # locals written back to the reference spelling (alpha-renaming)
+        if sigs:
+            from . import pycalls
+            pycalls.align(self.tree, name, sigs, names_log)     # positional / keyword arguments as on the reference tree
         self.norm_log = names_log + pynorm.normalise(self.tree, name, inventory.load()[1])
         self.funcs = {}      # qual (without module) -> FunctionDef
         self.classes = {}    # name -> ClassDef
@@ -45,12 +48,24 @@ class Py:
             raise AnalysisError("package directory %s not found" % d)
         self.dir = d
         self.mods = {}
+        # signatures of the package's own callables (first pass over the sources), for the call-shape alignment
+        pre = []
+        for f in sorted(os.listdir(d)):
+            if f.endswith(".py") and f[:-3] not in OUT_OF_SCOPE:
+                try:
+                    with warnings.catch_warnings():
+                        warnings.simplefilter("ignore")
+                        pre.append(ast.parse(open(os.path.join(d, f), encoding="utf-8", newline="").read()))
+                except SyntaxError:
+                    pass
+        from . import pycalls
+        sigs = pycalls.signatures(pre)
         for f in sorted(os.listdir(d)):
             if f.endswith(".py"):
                 name = f[:-3]
                 if name in OUT_OF_SCOPE:
                     continue
-                self.mods[name] = Mod(name, os.path.join(d, f))
+                self.mods[name] = Mod(name, os.path.join(d, f), sigs)
         if len(self.mods) < 20:
             raise AnalysisError("package front end parsed %d modules (reference: 21)" % len(self.mods))
         from . import pynorm
